@@ -74,34 +74,59 @@ def model_and_replay(ctx, cap, total, maxtags, elems):
 
 
 def random_traces(ctx, combos, runs, ops, tagheavy):
-    first = None
-    for (elem, pages) in combos:
-        tf = ctx.path(f"ring-trace-{elem}-{pages}.ndjson")
-        res = vlib.vh_json(["ring-trace", "--out", tf, "--elem", elem, "--pages", pages,
-                            "--seed", ctx.seed * 7919 + elem * 31 + pages, "--runs", runs, "--ops", ops])
-        divides = (pages * 4096) % elem == 0
+    """Random op traces on real streams, validated by TLC (one JVM per combination, in parallel).
+    TLC's cost per event grows with the capacity (the model state holds every cell), so the
+    number of operations is scaled down for big rings."""
+    import concurrent.futures
+    # buffer sizes that are not a page multiple: refused, or a correct ring of that size
+    combos = list(combos) + [(1, 6000 / 4096), (4, 10000 / 4096), (1, 4097 / 4096), (8, 12296 / 4096)]
+
+    def one(combo):
+        elem, pages = combo
+        nbytes = round(pages * 4096)
+        odd = nbytes % 4096 != 0
+        cap = nbytes // elem
+        r = max(2, runs // 4) if odd else runs
+        o = ops
+        budget = 1200000 // max(cap, 1)          # events affordable at this capacity
+        if r * o > budget:
+            r = max(2, min(r, budget // 60))
+            o = max(40, budget // r)
+        tf = ctx.path(f"ring-trace-{elem}-{nbytes}.ndjson")
+        res = vlib.vh_json(["ring-trace", "--out", tf, "--elem", elem, "--bytes", nbytes,
+                            "--seed", ctx.seed * 7919 + elem * 31 + nbytes, "--runs", r, "--ops", o])
+        divides = nbytes % elem == 0 and not odd
         with open(tf) as f:
             lines = f.read().splitlines()
         if not divides:
             # The model: such a stream is either refused at construction, or
             # behaves as a correct ring of floor(size/elem) samples.
             if all(json.loads(l)["op"] == "new_err" for l in lines):
-                ctx.cov["evaluations"] += len(lines)
-                continue
+                return (combo, tf, cap, None, len(lines), 0, None, None, lines)
         mod = {1: 251, 2: 65521, 3: 1 << 24}.get(elem, 1 << 30)
-        cap = (pages * 4096) // elem
         ok, info = vlib.validate_trace(ctx, "Ring_Trace", tf,
                                        dict(cfg_consts(cap, 1000000000, 9), Modulus=mod),
-                                       invariants=["Inv"], timeout=1500)
-        ctx.cov["evaluations"] += res["events"]
-        ctx.cov["traces_validated_against_impl"] += res["runs"]
-        if first is None:
+                                       invariants=["Inv"], timeout=3000)
+        return (combo, tf, cap, mod, res["events"], res["runs"], ok, info, lines)
+
+    first = None
+    with concurrent.futures.ThreadPoolExecutor(max_workers=8) as ex:
+        results = list(ex.map(one, combos))
+    for (elem, pages), tf, cap, mod, events, nruns, ok, info, lines in results:
+        nbytes = round(pages * 4096)
+        odd = nbytes % 4096 != 0
+        divides = nbytes % elem == 0 and not odd
+        ctx.cov["evaluations"] += events
+        if ok is None:
+            continue
+        ctx.cov["traces_validated_against_impl"] += nruns
+        if first is None or cap < first[3]:
             first = (tf, elem, pages, cap, mod)
-            ctx.sample({"elem": elem, "pages": pages, "trace_head": [json.loads(l) for l in lines[1:5]]})
+        ctx.sample({"elem": elem, "bytes": nbytes, "trace_head": [json.loads(l) for l in lines[1:4]]}, limit=2)
         if not ok:
             what = " ".join(info.get("rejected", [])) + " " + " ".join(info.get("violated", []))
-            sig = f"trace:{classify(ctx.prop, what)}" + ("" if divides else ":nondividing")
-            ctx.violation(sig, f"elem={elem} pages={pages} cap={cap}: {what[:400]}", replay_src=tf)
+            sig = f"trace:{classify(ctx.prop, what)}" + ("" if divides else ":nondividing" if not odd else ":oddsize")
+            ctx.violation(sig, f"elem={elem} bytes={nbytes} cap={cap}: {what[:400]}", replay_src=tf)
     return first
 
 
